@@ -36,7 +36,9 @@ def run(ctx):
             elif v.get("mixed") and v.get("returned_original"):
                 key = "ConfigText:DevFailOpenCopy:Config.Redacted"
             else:
-                key = "ConfigText:unexplained:%s:%s:%s" % (v["cls"], kind, c["fclass"])
+                first = (v.get("leaked") or v.get("not_masked") or [kind])[0]     # "kind[idx]:class"
+                key = "ConfigText:unexplained:%s:%s:%s" % (v["cls"], first.split("[")[0],
+                                                          first.split(":")[-1] if ":" in first else c["fclass"])
             what = "redacted rendering reveals %s secret value(s) %s (focus %s[%s] class %s = %s, other secrets %s, other " \
                    "strings %s, %d list entries; Redacted() returned the original: %s)" % (
                        v.get("nleaked", len(v.get("not_masked", []))), (v.get("leaked") or v.get("not_masked"))[:4], kind,
